@@ -181,12 +181,40 @@ def pointcloud_tail(stmts, var, rel, fn):
     return st
 
 
+def check_decorators(fn, rel, allowed=()):
+    """fail closed on any decorator that is not listed (memoisation, wrappers that change call semantics ...)"""
+    for d in fn.decorator_list:
+        name = T.dotted(d.func) if isinstance(d, ast.Call) else T.dotted(d)
+        ok = False
+        for al in allowed:
+            if isinstance(al, tuple):
+                ok = ok or (isinstance(d, ast.Call) and name == al[0] and [T.dotted(x) for x in d.args] == list(al[1]) and not d.keywords)
+            else:
+                ok = ok or (not isinstance(d, ast.Call) and name == al)
+        need(ok, rel, fn, "unexpected decorator %s on %s" % (name, fn.name))
+
+
+def defaults_of(fn, rel):
+    """{parameter: default constant}; a default that is not an immutable literal is not accepted"""
+    args = fn.args
+    need(not args.vararg and not args.kwarg and not args.kwonlyargs and not args.posonlyargs, rel, fn, "unexpected parameter kinds")
+    out = {}
+    names = [a.arg for a in args.args]
+    for name, d in zip(names[len(names) - len(args.defaults):], args.defaults):
+        need(isinstance(d, ast.Constant) and (d.value is None or isinstance(d.value, (bool, int, float, str))), rel, d,
+             "default of %s is not an immutable literal" % name)
+        out[name] = d.value
+    return out
+
+
 # ------------------------------------------------------------------ sampling.py
 def tr_sphere_ball(src, tree, which, parts):
     fn = T.find_def(tree, which, SAMP)
     parts.append((which, T.sha(src, fn)))
     need([a.arg for a in fn.args.args] == ["center", "radius", "n_pts", "return_point_cloud"], SAMP, fn,
          "unexpected parameters")
+    check_decorators(fn, SAMP)
+    need(defaults_of(fn, SAMP) == {"return_point_cloud": False}, SAMP, fn, "unexpected defaults")
     b = T.body_nodoc(fn)
     env = {"radius": "radius", "center": "c"}
     urange = None
@@ -242,17 +270,20 @@ def tr_aabb(parts):
     cls = T.find_def(tree, "AABB", AABB)
     for prop, attr in (("mini", None), ("maxi", None)):
         fn = T.find_def(tree, "AABB." + prop, AABB)
+        check_decorators(fn, AABB, ["property"])
         b = T.body_nodoc(fn)
         need(len(b) == 1 and isinstance(b[0], ast.Return) and T.dotted(b[0].value) in ("self._p1", "self._p2"), AABB, fn,
              "%s is not `return self._p1|_p2`" % prop)
         out.append("Definition aabb_%s {T} (o : ops T) (p1 p2 : T) : T := %s.\n" % (prop, T.dotted(b[0].value)[6:]))
     fn = T.find_def(tree, "AABB.span", AABB)
+    check_decorators(fn, AABB, ["property"])
     parts.append(("AABB.span", T.sha(src, fn)))
     b = T.body_nodoc(fn)
     need(len(b) == 1 and isinstance(b[0], ast.Return), AABB, fn, "span is not a single return")
     envp = {"self._p1": "p1", "self._p2": "p2"}
     out.append("Definition aabb_span {T} (o : ops T) (p1 p2 : T) : T := %s.\n" % fexpr(b[0].value, envp, AABB))
     fn = T.find_def(tree, "AABB.is_empty", AABB)
+    check_decorators(fn, AABB)
     parts.append(("AABB.is_empty", T.sha(src, fn)))
     b = T.body_nodoc(fn)
     need(len(b) == 1 and isinstance(b[0], ast.Return) and is_call(b[0].value, "np.any", 1), AABB, fn,
@@ -261,6 +292,7 @@ def tr_aabb(parts):
     out.append("Definition aabb_empty_coord {T} (o : ops T) (p1 p2 : T) : bool := %s.\n"
                % fbexpr(b[0].value.args[0], envm, AABB))
     fn = T.find_def(tree, "AABB.dim", AABB)
+    check_decorators(fn, AABB, ["property"])
     b = T.body_nodoc(fn)
     need(len(b) == 1 and isinstance(b[0], ast.Return) and T.dotted(b[0].value) == "self._p1.size", AABB, fn,
          "dim is not `return self._p1.size`")
@@ -271,6 +303,11 @@ def tr_box(src, tree, parts):
     fn = T.find_def(tree, "sample_AABB", SAMP)
     parts.append(("sample_AABB", T.sha(src, fn)))
     need([a.arg for a in fn.args.args] == ["box", "n_pts", "mode", "return_point_cloud"], SAMP, fn, "unexpected parameters")
+    check_decorators(fn, SAMP)
+    dfl = defaults_of(fn, SAMP)
+    need(set(dfl) == {"mode", "return_point_cloud"} and dfl["return_point_cloud"] is False and dfl["mode"] in ("uniform", "grid"),
+         SAMP, fn, "unexpected defaults")
+    default_mode_uniform = "true" if dfl["mode"] == "uniform" else "false"
     b = T.body_nodoc(fn)
     need(len(b) == 5, SAMP, fn, "sample_AABB: expected 5 statements")
     # check_argument("mode", mode, str, [..])
@@ -377,7 +414,8 @@ def tr_box(src, tree, parts):
           and T.dotted(st.body[0].value.args[0]) == pts and len(st.orelse) == 1
           and isinstance(st.orelse[0], ast.Return) and T.dotted(st.orelse[0].value) == pts)
     need(ok, SAMP, st, "sample_AABB does not return the points")
-    return ("Definition box_pc_dim_guard (d : Z) : bool := %s.\n"
+    return ("Definition box_default_mode_uniform : bool := %s.\n" % default_mode_uniform +
+            "Definition box_pc_dim_guard (d : Z) : bool := %s.\n"
             "Definition box_uniform_coord {T} (o : ops T) (mini maxi span u : T) : T := %s.\n"
             "Definition grid_res (n d : Z) : Z := iroot_round n d.\n"
             "Definition grid_lin_lo {T} (o : ops T) : T := %s.\n"
@@ -434,6 +472,8 @@ def tr_polyline(src, tree, parts):
     fn = T.find_def(tree, "sample_polyline", SAMP)
     parts.append(("sample_polyline", T.sha(src, fn)))
     need([a.arg for a in fn.args.args] == ["mesh", "n_pts", "return_point_cloud"], SAMP, fn, "unexpected parameters")
+    check_decorators(fn, SAMP, [("allowed_mesh_types", ["PolyLine"])])
+    need(defaults_of(fn, SAMP) == {"return_point_cloud": False}, SAMP, fn, "unexpected defaults")
     b = T.body_nodoc(fn)
     need(len(b) == 5, SAMP, fn, "sample_polyline: expected 5 statements")
     a = assign1(b[0])
@@ -494,6 +534,8 @@ def tr_surface(src, tree, parts):
     parts.append(("sample_surface", T.sha(src, fn)))
     need([a.arg for a in fn.args.args] == ["mesh", "n_pts", "return_point_cloud", "return_normals"], SAMP, fn,
          "unexpected parameters")
+    check_decorators(fn, SAMP, [("allowed_mesh_types", ["SurfaceMesh"])])
+    need(defaults_of(fn, SAMP) == {"return_point_cloud": False, "return_normals": False}, SAMP, fn, "unexpected defaults")
     b = T.body_nodoc(fn)
     need(len(b) == 9, SAMP, fn, "sample_surface: expected 9 statements")
     need(isinstance(b[0], ast.Assert) and is_call(b[0].test, "mesh.is_triangular", 0), SAMP, b[0], "assert mesh.is_triangular() expected")
@@ -593,6 +635,8 @@ def tr_decasteljau(src, tree, parts):
     fn = T.find_def(tree, "de_casteljau", BEZ)
     parts.append(("de_casteljau", T.sha(src, fn)))
     need([a.arg for a in fn.args.args] == ["P", "t"], BEZ, fn, "unexpected parameters")
+    check_decorators(fn, BEZ)
+    need(defaults_of(fn, BEZ) == {}, BEZ, fn, "unexpected defaults")
     b = T.body_nodoc(fn)
     need(len(b) == 5, BEZ, fn, "de_casteljau: expected 5 statements")
     st = b[0]
@@ -661,7 +705,20 @@ def linspace_of(e, rel):
 def tr_curve(src, tree, parts):
     cls = T.find_def(tree, "BezierCurve", BEZ)
     parts.append(("BezierCurve", T.sha(src, cls)))
+    check_decorators(cls, BEZ)
+    fn = T.find_def(tree, "BezierCurve.__init__", BEZ)
+    check_decorators(fn, BEZ)
+    b = T.body_nodoc(fn)
+    a0 = b[0] if len(b) == 1 and isinstance(b[0], ast.Assign) else None
+    ok = (a0 is not None and [a.arg for a in fn.args.args] == ["self", "control_points"] and not fn.args.defaults
+          and T.dotted(a0.targets[0]) == "self.pts" and is_call(a0.value, "DataContainer", 1)
+          and isinstance(a0.value.args[0], ast.ListComp) and len(a0.value.args[0].generators) == 1
+          and T.dotted(a0.value.args[0].generators[0].iter) == "control_points" and not a0.value.args[0].generators[0].ifs
+          and is_call(a0.value.args[0].elt, "Vec", 1)
+          and T.dotted(a0.value.args[0].elt.args[0]) == T.dotted(a0.value.args[0].generators[0].target))
+    need(ok, BEZ, fn, "BezierCurve.__init__ is not self.pts = DataContainer([Vec(x) for x in control_points], ...)")
     fn = T.find_def(tree, "BezierCurve.evaluate", BEZ)
+    check_decorators(fn, BEZ)
     b = T.body_nodoc(fn)
     ok = (len(b) == 1 and isinstance(b[0], ast.Return) and is_call(b[0].value, "de_casteljau", 2)
           and T.dotted(b[0].value.args[0]) == "self.pts" and T.dotted(b[0].value.args[1]) == fn.args.args[1].arg
@@ -669,6 +726,11 @@ def tr_curve(src, tree, parts):
     need(ok, BEZ, fn, "BezierCurve.evaluate is not de_casteljau(self.pts, t)")
     fn = T.find_def(tree, "BezierCurve.as_polyline", BEZ)
     need([a.arg for a in fn.args.args] == ["self", "n_pts", "custom_pos"], BEZ, fn, "unexpected parameters")
+    check_decorators(fn, BEZ)
+    dfl = defaults_of(fn, BEZ)
+    need(set(dfl) == {"n_pts", "custom_pos"} and dfl["custom_pos"] is None and isinstance(dfl["n_pts"], int)
+         and not isinstance(dfl["n_pts"], bool), BEZ, fn, "unexpected defaults")
+    default_n_pts = dfl["n_pts"]
     b = T.body_nodoc(fn)
     need(len(b) == 6, BEZ, fn, "as_polyline: expected 6 statements")
     st = b[0]
@@ -726,7 +788,7 @@ def tr_curve(src, tree, parts):
     need(isinstance(st, ast.For) and isinstance(st.target, ast.Name) and len(st.body) == 1 and not st.orelse, BEZ, st,
          "edge loop not recognised")
     iv = st.target.id
-    bound = zexpr(range_arg(st.iter, BEZ), {"n_pts": "n_pts", "len:" + pv: "m"}, BEZ)
+    bound = zexpr(range_arg(st.iter, BEZ), {"n_pts": "n_pts", "len:" + pv: "npos", "len:" + outv + ".vertices": "nverts"}, BEZ)
     ap = st.body[0]
     ok = (isinstance(ap, ast.Expr) and is_call(ap.value, outv + ".edges.append", 1) and isinstance(ap.value.args[0], ast.Tuple)
           and len(ap.value.args[0].elts) == 2)
@@ -735,18 +797,34 @@ def tr_curve(src, tree, parts):
     st = b[5]
     need(isinstance(st, ast.Return) and is_call(st.value, "PolyLine", 1) and T.dotted(st.value.args[0]) == outv, BEZ, st,
          "return PolyLine(out) expected")
-    return ("Definition polyline_default_len (n_pts : Z) : Z := %s.\n"
+    return ("Definition polyline_default_n_pts : Z := %d.\n" % default_n_pts +
+            "Definition polyline_default_len (n_pts : Z) : Z := %s.\n"
             "Definition polyline_lin_lo {T} (o : ops T) : T := %s.\n"
             "Definition polyline_lin_hi {T} (o : ops T) : T := %s.\n"
             "Definition polyline_vertex_dims : list Z := [%s].\n"
-            "Definition polyline_edges (n_pts m : Z) : list (Z * Z) :=\n  flat_map (fun i => [(%s, %s)]) (zrange %s).\n"
+            "(* npos = number of sampled positions, nverts = number of vertices created for them *)\n"
+            "Definition polyline_edges (n_pts npos nverts : Z) : list (Z * Z) :=\n  flat_map (fun i => [(%s, %s)]) (zrange %s).\n"
             % (dlen, lin_lo, lin_hi, "; ".join(str(d) for d in dims), ea, eb, bound))
 
 
 def tr_patch(src, tree, parts):
     cls = T.find_def(tree, "BezierPatch", BEZ)
     parts.append(("BezierPatch", T.sha(src, cls)))
+    check_decorators(cls, BEZ)
+    fn = T.find_def(tree, "BezierPatch.__init__", BEZ)
+    check_decorators(fn, BEZ)
+    b = T.body_nodoc(fn)
+    a0 = b[0] if len(b) == 1 and isinstance(b[0], ast.Assign) else None
+    ok = (a0 is not None and [a.arg for a in fn.args.args] == ["self", "control_points"] and not fn.args.defaults
+          and T.dotted(a0.targets[0]) == "self.pts" and isinstance(a0.value, ast.ListComp) and len(a0.value.generators) == 1
+          and T.dotted(a0.value.generators[0].iter) == "control_points" and not a0.value.generators[0].ifs
+          and isinstance(a0.value.elt, ast.ListComp) and len(a0.value.elt.generators) == 1
+          and T.dotted(a0.value.elt.generators[0].iter) == T.dotted(a0.value.generators[0].target)
+          and not a0.value.elt.generators[0].ifs and is_call(a0.value.elt.elt, "Vec", 1)
+          and T.dotted(a0.value.elt.elt.args[0]) == T.dotted(a0.value.elt.generators[0].target))
+    need(ok, BEZ, fn, "BezierPatch.__init__ is not self.pts = [[Vec(x) for x in l] for l in control_points]")
     fn = T.find_def(tree, "BezierPatch._evaluate_row", BEZ)
+    check_decorators(fn, BEZ)
     b = T.body_nodoc(fn)
     uarg = fn.args.args[1].arg
     ok = (len(b) == 1 and isinstance(b[0], ast.Return) and isinstance(b[0].value, ast.ListComp)
@@ -760,6 +838,7 @@ def tr_patch(src, tree, parts):
           and T.dotted(b[0].value.elt.args[1]) == uarg)
     need(ok, BEZ, fn, "_evaluate_row is not [de_casteljau(self.pts[i],u) for i in range(len(self.pts))]")
     fn = T.find_def(tree, "BezierPatch.evaluate", BEZ)
+    check_decorators(fn, BEZ)
     b = T.body_nodoc(fn)
     ua, va = fn.args.args[1].arg, fn.args.args[2].arg
     ok = (len(b) == 1 and isinstance(b[0], ast.Return) and is_call(b[0].value, "de_casteljau", 2)
@@ -768,6 +847,10 @@ def tr_patch(src, tree, parts):
     need(ok, BEZ, fn, "evaluate is not de_casteljau(self._evaluate_row(u), v)")
     fn = T.find_def(tree, "BezierPatch.as_surface", BEZ)
     need([a.arg for a in fn.args.args] == ["self", "n1", "n2"], BEZ, fn, "unexpected parameters")
+    check_decorators(fn, BEZ)
+    dfl = defaults_of(fn, BEZ)
+    need(set(dfl) == {"n1", "n2"} and all(isinstance(v, int) and not isinstance(v, bool) for v in dfl.values()), BEZ, fn,
+         "unexpected defaults")
     b = T.body_nodoc(fn)
     need(len(b) == 8, BEZ, fn, "as_surface: expected 8 statements")
     a = assign1(b[0])
@@ -849,7 +932,8 @@ def tr_patch(src, tree, parts):
     st = b[7]
     need(isinstance(st, ast.Return) and is_call(st.value, "SurfaceMesh", 1) and T.dotted(st.value.args[0]) == outv, BEZ, st,
          "return SurfaceMesh(out) expected")
-    return ("Definition surface_U_len (n1 n2 : Z) : Z := %s.\n"
+    return ("Definition surface_default_n1 : Z := %d.\nDefinition surface_default_n2 : Z := %d.\n" % (dfl["n1"], dfl["n2"]) +
+            "Definition surface_U_len (n1 n2 : Z) : Z := %s.\n"
             "Definition surface_V_len (n1 n2 : Z) : Z := %s.\n"
             "Definition surface_lin_lo {T} (o : ops T) : T := %s.\n"
             "Definition surface_lin_hi {T} (o : ops T) : T := %s.\n"
